@@ -139,6 +139,8 @@ def parseN (ts : List String) : Option AslModel.ArrN.NOp :=
   | ["cp", h, g] => do some (.cp (← nat h) (← nat g))
   | ["app", h, v] => do some (.app (← nat h) (← v.toInt?))
   | ["kapp", h, j, v] => do some (.kapp (← nat h) (← nat j) (← v.toInt?))
+  | ["iapp", h, j, v] => do some (.iapp (← nat h) (← nat j) (← v.toInt?))
+  | ["asgi", h, j] => do some (.asgi (← nat h) (← nat j))
   | ["getk", t, h, j] => do some (.getk (← nat t) (← nat h) (← nat j))
   | ["asgk", h, j] => do some (.asgk (← nat h) (← nat j))
   | ["apndk", h, j] => do some (.apndk (← nat h) (← nat j))
